@@ -147,6 +147,18 @@ def rule_lf4(repo, col):
     key = kl.target.id
     sums = pat.find("V_w = sum((self._get_weight(V_i, %s, strict=False) for V_i in E_set))" % key, kl) or pat.find("V_w = sum([self._get_weight(V_i, %s, strict=False) for V_i in E_set])" % key, kl)
     if len(sums) != 1:
+        # a sum of member weights that is not taken per substitution (outside the loop over the keys, or ranging over the keys itself)?
+        for st in ast.walk(outer[0]):
+            if isinstance(st, ast.Assign) and isinstance(st.value, ast.Call) and dotted(st.value.func) == "sum" and st.value.args \
+                    and isinstance(st.value.args[0], (ast.GeneratorExp, ast.ListComp)) and "self._get_weight(" in norm(st.value.args[0].elt):
+                gens = [norm(g.iter) for g in st.value.args[0].generators]
+                inside = any(st is x for x in ast.walk(kl))
+                if not inside or "keys" in gens or len(gens) != 1:
+                    col.fail("LF4", m, st, "_normalize_weights computes the normalisation constant %s from a sum over %s%s: every substitution (key) of an annotated disjunction is a "
+                             "distribution of its own and must be normalised by the sum of ITS members only - one constant for all substitutions lets the heads of one grounding sum to "
+                             "more than the available mass" % (norm(st.targets[0]), gens, "" if inside else ", outside the loop over the keys"),
+                             construct="normalisation constant not per substitution", function="LFIProblem._normalize_weights")
+                    return
         raise AnalysisError("_normalize_weights: sum of the member weights not found")
     w, summed = sums[0][1]["V_w"], sums[0][1]["E_set"]
     scal = [n for n in kl.body if isinstance(n, ast.For) and any(isinstance(x, ast.Call) and norm(x.func) == "self._set_weight" for x in ast.walk(n))]
